@@ -21,7 +21,7 @@ def run(tier, seed):
     try:
         mc = mc_cond(wd)
         q = tier == "quick"
-        res = xc.judge(rep, "flow", 48 if q else 600, seed + 2000, wd, "f", OWNS, jobs=8 if q else 14)
+        res = xc.judge(rep, "flow", 48 if q else 2000, seed + 2000, wd, "f", OWNS, jobs=8 if q else 14)
         rep.cov["samples"] = [{"family": "flow", "example": sorted(res.distinct)[:3]}]
         xc.finish_cov(rep, res, mc, "Every Jcc/JMP/CALL/RET/JRCXZ/JECXZ form; rel8 and rel32, forward and backward landing pads, register- and "
                       "memory-indirect targets, RCX in {0,1,2^32,2^32-1<<32,..}; the same pad is stored in both candidate return slots so that "
